@@ -49,7 +49,7 @@ RULE = ("(1) random histories of 3-8 steps over a pool of failing tasks (python 
         "container return; distinct by case content")
 
 # ------------------------------------------------------------------------------------------------ pool
-TOP13 = [["Raise", 1], ["Sh", 1], ["MF", 1], ["DictMiss", 1], ["Arity", 1], ["WR", 1], ["WD", 1]]
+TOP13 = [["Raise", 1], ["Sh", 1], ["MF", 1], ["DictMiss", 1], ["Arity", 1], ["PyColl", 1], ["WR", 1], ["WD", 1], ["WT", 1]]
 
 
 def children13(d):
@@ -58,11 +58,25 @@ def children13(d):
     if d[0] == "WD":        # n1 = Add(a, 1); n2 = DictMiss(n1.out); n3 = Sh(a); returns n2.y
         # execution order is the graph's: the nodes without predecessors (n1, n3) first, then n2
         return [["Add", d[1], 1], ["Sh", d[1]], ["DictMiss", d[1] + 1]]
+    if d[0] == "WT":        # n1 = Loose(a); the workflow's declared output type rejects the value while flagged
+        return [["Loose", d[1]]]
     return []
+
+
+def cf_fail_ok13(top):
+    """failures that leave a pool-worker submission inside the sequential model"""
+    ch = children13(top)
+    if not ch:
+        return [top]
+    if top[0] == "WD":
+        return [ch[-1]]            # Add and Sh are independent: only the last node may fail
+    return ch + [top]              # chains (WR, WT): any node, and the workflow's own output collection
 
 
 def expected13(d):
     k = d[0]
+    if k in ("PyColl", "Loose", "WT"):
+        return {"out": d[1] + 1}
     if k == "Raise":
         return {"out": d[1] + 1}
     if k == "Sh":
@@ -80,7 +94,7 @@ def expected13(d):
     raise ValueError(d)
 
 
-POOL13 = c11.Pool(TOP13, children13, expected13, "harness.c13")
+POOL13 = c11.Pool(TOP13, children13, expected13, "harness.c13", collect_fail=[["WT", 1]], cf_fail_ok=cf_fail_ok13)
 
 SH_SCRIPT = """echo "BODY [\\"Sh\\", $1]" >> $C11_LOG
 if [ -e $C11_FLAGS/Sh_$1 ]; then exit 3; fi
@@ -94,6 +108,7 @@ SCRIPT_DIR = "/tmp/verif-c13-scripts"     # fixed path: it is an input of the sh
 
 
 def _runner_pool13(logf, flagdir):
+    import typing as ty
     from pydra.compose import python, workflow, shell
     from pydra.engine.hooks import TaskHooks
 
@@ -157,6 +172,40 @@ def _runner_pool13(logf, flagdir):
             return (a, a + 10, 0)                # three values for two outputs
         return (a, a + 10)
 
+    # failure *after* the body, in output collection (Outputs._from_job): the declared output type rejects
+    # the value while the flag of the given identity is up
+    class FlagMeta(type):
+        def __instancecheck__(cls, v):
+            import os
+            return isinstance(v, int) and not os.path.exists(os.path.join(os.environ["C11_FLAGS"], cls.flag))
+
+    made = {}
+
+    def flag_type(kind, a):
+        return FlagMeta("FlagInt_%s_%d" % (kind, a), (), {"flag": "%s_%d" % (kind, a)})
+
+    def PyColl(a):
+        if ("PyColl", a) not in made:
+            def pycoll(a: int):
+                flagged(["PyColl", a])          # logs the body execution; the flag acts on the output type
+                return a + 1
+            made[("PyColl", a)] = python.define(pycoll, outputs={"out": flag_type("PyColl", a)})
+        return made[("PyColl", a)](a=a)
+
+    @python.define(outputs={"out": ty.Any})
+    def Loose(a: int):
+        if flagged(["Loose", a]):
+            raise ValueError("planned failure")
+        return a + 1
+
+    def WT(a):
+        if ("WT", a) not in made:
+            def wt(a: int):
+                n1 = workflow.add(Loose(a=a), name="n1", hooks=hooks)
+                return n1.out
+            made[("WT", a)] = workflow.define(wt, outputs={"out": flag_type("WT", a)})
+        return made[("WT", a)](a=a)
+
     Sh = shell.define("sh <script:str> <a:int>", name="Sh")
     MF = shell.define("sh <script:str> <a:int> <out|outfile:generic/file>", name="MF")
 
@@ -187,6 +236,12 @@ def _runner_pool13(logf, flagdir):
             return Sh(script=os.path.join(SCRIPT_DIR, "sh.sh"), a=d[1])
         if k == "MF":
             return MF(script=os.path.join(SCRIPT_DIR, "mf.sh"), a=d[1])
+        if k == "PyColl":
+            return PyColl(d[1])
+        if k == "Loose":
+            return Loose(a=d[1])
+        if k == "WT":
+            return WT(d[1])
         if k == "WR":
             return WR(a=d[1])
         if k == "WD":
@@ -332,7 +387,7 @@ def run_binding(ctx, out):
     from .lib import coqio
     from .lib.runner import Failure
     rng = ctx.rng
-    n = ctx.budget(150, 1000)
+    n = ctx.budget(80, 1000)
     cases = [{"ds": c["ds"], "ret": c["ret"]} for c in ctx.corpus() if "ds" in c]
     while len(cases) < n:
         cases.append(gen_bind_case(rng))
@@ -390,11 +445,12 @@ def run_binding(ctx, out):
 
 
 def gen13(rng, pool):
-    return c11.gen_history(rng, pool, flaky_p=0.5, nflaky=(1, 2, 2, 3), p_plant=0.08, p_rerun=0.15, p_cf=0.0)
+    return c11.gen_history(rng, pool, flaky_p=0.5, nflaky=(1, 2, 2, 3), p_plant=0.08, p_rerun=0.15, p_cf=0.25,
+                           kinds=("empty", "jobonly", "zero"))
 
 
 def run(ctx):
-    out = c11.run(ctx, prop="C13", pool=POOL13, gen=gen13, rule=RULE, budget=(40, 200))
+    out = c11.run(ctx, prop="C13", pool=POOL13, gen=gen13, rule=RULE, budget=(20, 200))
     return run_binding(ctx, out)
 
 
